@@ -107,6 +107,14 @@ theorem r6_order_check_iff (d : VDoc) (x : NonLocal) : R6c_nlB d d.redges x = tr
 /-- R9: `Value::validate` on the constant decides that it inhabits the type it reports (C14). -/
 theorem r9_check_iff (d : VDoc) (n : Nat) : R9_nodeB d n = true ↔ R9_node d n := R9_nodeB_iff d n
 
+/-- R3/R4: the value ports of an operation are those of a signature the C06 specification (`Spec.HasSig`)
+    gives it. -/
+theorem vsig_hasSig (op : Op) (s : Sig) (hne : ∀ d a, op ≠ .extOp d none a) (h : vsig op = some s) :
+    ∃ r, Spec.HasSig op ⟨s.inp, s.out, r⟩ := Validate.vsig_hasSig op s hne h
+
+example : vsig (.conditional (.general [[], []]) [.qubit] (some [.usize])) =
+    some ⟨[.sum [[], []], .qubit], [.usize], []⟩ := rfl
+
 /-! ### the hand-written tables are the regenerated ones -/
 
 def flagsRow (f : Flags) : Gen.ValidityTables.FlagsRow :=
